@@ -118,9 +118,13 @@ def main():
         'version': 1,
         'setup_cmd': './setup.sh',
         'hooks': {'guard': 'PENMAN_VERIF',
-                  'enable': 'no hooks: every observable is public API; checks import penman from /repo working tree via PYTHONPATH (PENMAN_SRC, default /repo) in a fresh interpreter with bytecode writing off',
+                  'enable': 'one add-only hook in penman/layout.py (17 lines): with the environment variable PENMAN_VERIF set before penman is '
+                            'imported, configure() records its decisions (enter/leave/find/round/end) in layout._verif_events; used only by the '
+                            'step-wise validation of C06 (harness/configure_worker.py, spec/Trace_Configure.tla), whose verdicts are drift, never '
+                            'violations. Every gating check observes the public API only and imports penman from /repo working tree via '
+                            'PYTHONPATH (PENMAN_SRC, default /repo) in a fresh interpreter with bytecode writing off.',
                   'baseline_off_cmd': 'cd /repo && /venv/bin/python -m pytest -ra -q -p no:cacheprovider --timeout=900 --continue-on-collection-errors',
-                  'source_commits': [], 'add_only': True},
+                  'source_commits': ['098e869'], 'add_only': True},
         'engines': [{'name': k, 'path': '/verif/harness', 'serves_properties': sorted(v),
                      'kind_free_text': 'TLA+ specification (spec/*.tla) checked by TLC; Python drives penman and records traces; TLC judges them'}
                     for k, v in sorted(engines.items())],
